@@ -214,6 +214,34 @@ func TestVF_C02(t *testing.T) {
 					nf = 2 + r.Intn(2)
 				}
 				plan := vfFaultPlan{Dir: dir}
+				if k%2 == 0 {
+					// payload faults: one bit of one payload byte of a DATA message in the data direction
+					dir = "s2c"
+					msgs, total = base.s2c, base.s2cLen
+					if sc.Cfg.Dir == "up" {
+						dir = "c2s"
+						msgs, total = base.c2s, base.c2sLen
+					}
+					plan.Dir = dir
+					var datas []vfMsg
+					for _, m := range msgs {
+						if m.Type == "DATA" && m.End-m.Start > 24 {
+							datas = append(datas, m)
+						}
+					}
+					if len(datas) > 0 {
+						m := datas[r.Intn(len(datas))]
+						hdr := int64(6)
+						if m.BinLen > 0 {
+							hdr = m.End - m.Start - m.BinLen
+						}
+						span := m.End - m.Start - hdr - 1
+						off := m.Start + hdr + int64(r.Intn(int(span)))
+						plan.Faults = append(plan.Faults, vfFault{Off: off, Kind: "flip", Arg: r.Intn(8)})
+						plan.Phase = "DATA-payload"
+						nf = 0
+					}
+				}
 				for f := 0; f < nf; f++ {
 					m := msgs[(k/2+f*3+r.Intn(2))%len(msgs)]
 					if k%5 == 4 {
